@@ -654,6 +654,12 @@ struct Harness
                         }
                     }
                 }
+                if (err.empty() && restart && iters_on(L, op, out))
+                {
+                    // what is left after an interruption is a tree the container holds: every iterator form works on it
+                    cls = "remainder-iteration";
+                    err = "after " + std::to_string(k) + " tear steps the iterators do not enumerate the remaining elements";
+                }
                 if (err.empty())
                 {
                     if (restart) { next = nullptr; }
